@@ -73,6 +73,8 @@ META = (META[0] + " " + META_EXTRA, META[1])
 
 META = (META[0] + ' FUNCPASS (a functor overload hands its functor to every ordering / matching algorithm it calls); TIEMOVE (stable algorithms reorder elements only on paths where the functor is true, never where it is merely not true the other way round); RSTEP (downward scans test their lower bound before each step).', META[1])
 
+META = (META[0] + ' DISTGUARD; IT1n also covers range ends formed from the count.', META[1])
+
 
 def run(chk, tier):
     db = D.load("checks")
@@ -85,6 +87,9 @@ def run(chk, tier):
         chk.analysis_broken("FUNCPASS: fewer than 8 functor overloads that call another algorithm (floor 8)")
     if _ITX.tie_move_area(chk, db, ['_algorithm/']) < 2:      # TIEMOVE
         chk.analysis_broken("TIEMOVE: fewer than 2 stable algorithms with a functor-guarded reordering (floor 2)")
+    from ..rules import extra8 as _X8
+    _X8.dist_guard_area(chk, db, ['_algorithm/', '_numeric/'])      # DISTGUARD
+    _X8.positive_controls(chk, D, ('DISTGUARD',))
     if _ITX.rstep_area(chk, db, ['_algorithm/', '_numeric/', '_memory/']) < 5:      # RSTEP
         chk.analysis_broken("RSTEP: fewer than 5 downward scans (floor 5)")
     nsr = 0
